@@ -848,6 +848,95 @@ func buildExtras(c *core.Ctx) {
 		}
 		c.Decide(len(problems) == 0, "C09-BUILD", "Build#fallback-run", pos, "fallback: non-nil => Run, then return its Result", strings.Join(dedup(problems), "; "))
 	}
+	// what Build hands out is the winner's result or the fallback's - nothing else (no shortcut that returns a candidate
+	// before the order has been consulted)
+	{
+		newEnc := c.Prog.SSAFunc(c.Prog.LookupFunc("", "newBatchEncoder"))
+		var problems []string
+		nWinner := 0
+		for _, b := range build.Blocks {
+			ret, ok := b.Instrs[len(b.Instrs)-1].(*ssa.Return)
+			if !ok || len(ret.Results) != 3 {
+				continue
+			}
+			// a return of a callee's whole result tuple
+			var call *ssa.Call
+			whole := true
+			for i, r := range ret.Results {
+				ex, isE := r.(*ssa.Extract)
+				if !isE || ex.Index != i {
+					whole = false
+					break
+				}
+				cc, isC := ex.Tuple.(*ssa.Call)
+				if !isC || (call != nil && cc != call) {
+					whole = false
+					break
+				}
+				call = cc
+			}
+			if !whole || call == nil {
+				// literal results: must be a refusal (non-nil error)
+				if paths.IsNilConst(ret.Results[2]) {
+					problems = append(problems, "Build returns success with values that are not a candidate's result at "+c.Prog.Pos(ret.Pos()))
+				}
+				continue
+			}
+			cal := call.Call.StaticCallee()
+			if cal == nil {
+				problems = append(problems, "Build returns the result of a dynamic call")
+				continue
+			}
+			if cal.Name() != "Result" {
+				// handing over to an unexported helper of the builder (the fallback) is judged by Build#fallback-run
+				if cal.Pkg == build.Pkg && cal.Object() != nil && !cal.Object().Exported() {
+					continue
+				}
+				problems = append(problems, "Build returns the result of "+cal.Name())
+				continue
+			}
+			recvV := call.Call.Args[0]
+			isWinner := false
+			if u, isU := recvV.(*ssa.UnOp); isU && u.Op == token.MUL {
+				if ia, isIA := u.X.(*ssa.IndexAddr); isIA {
+					if k, isK := constInt(ia.Index); isK && k == 0 {
+						// element 0 of a slice that was sorted before (C09-FLOW Build#winner checks which slice)
+						for _, bb := range build.Blocks {
+							for _, in2 := range bb.Instrs {
+								if sc, isSC := in2.(*ssa.Call); isSC && sc.Call.StaticCallee() != nil && sc.Call.StaticCallee().Name() == "Sort" && len(sc.Call.Args) == 2 && sc.Call.Args[1] == ia.X {
+									if (bb == b && instrIndex(sc) < instrIndex(call)) || (bb != b && bb.Dominates(b)) {
+										isWinner = true
+									}
+								}
+							}
+						}
+					}
+				}
+			}
+			isFallback := false
+			switch x := recvV.(type) {
+			case *ssa.Phi:
+				for _, e := range x.Edges {
+					if ec, isC := e.(*ssa.Call); isC && newEnc != nil && ec.Call.StaticCallee() == newEnc {
+						isFallback = true
+					}
+				}
+			case *ssa.Call:
+				isFallback = newEnc != nil && x.Call.StaticCallee() == newEnc
+			}
+			switch {
+			case isWinner:
+				nWinner++
+			case isFallback:
+			default:
+				problems = append(problems, "Build returns the result of a candidate that is neither element 0 of the sorted list nor the fallback encoder (at "+c.Prog.Pos(ret.Pos())+"): the order - fewest parts, then priority - is bypassed")
+			}
+		}
+		if nWinner == 0 {
+			problems = append(problems, "no return of the sorted list's first element found")
+		}
+		c.Decide(len(problems) == 0, "C09-BUILD", "Build#only-winner", pos, "every success return is sorted[0].Result() or the fallback's result", strings.Join(dedup(problems), "; "))
+	}
 	// the candidate set: the requested codings, plus the original coding exactly when it is a valid coding
 	if fn := c.Prog.SSAFunc(c.Prog.LookupMethod("", "BatchDataCodingEncoder", "allDataCodings")); fn == nil {
 		c.Broken("C09-BUILD", "allDataCodings", "method not found")
